@@ -8,6 +8,7 @@
 import ICal.Lemmas.Text
 import ICal.Props.C05
 import ICal.Props.C06
+import ICal.Lemmas.BodiesText
 namespace ICal.C07
 
 /-- The encoder is "normalise, then escape each character on its own". -/
@@ -88,5 +89,17 @@ theorem text_property_route (n : Str) (p : Params) (s : Str) (sorted : Bool)
 example : vTextFromIcal (vTextToIcal ['\\', 'n', ';', ',', ':', '"', '%', '2', 'C', '\r', '\n', '\\', 'N', ' ', 'a'])
     = ['\\', 'n', ';', ',', ':', '"', '%', '2', 'C', '\n', '\n', ' ', 'a'] := by decide
 example : catsFromIcal (catsToIcal [['a', ',', 'b'], ['\\'], [], [';']]) = [['a', ',', 'b'], ['\\'], [], [';']] := by decide
+
+/-! ## Regenerated function body = hand model
+
+  `ICal.Gen.BodiesText.split_on_unescaped_comma` is written by tools/py2lean.py from the current
+  source text on every run (a `for` loop with a string builder, a result list and the `escaped`
+  flag); the theorem proves it equal to the model `splitUnescComma` that the theorems above are about. -/
+
+theorem body_split_on_unescaped_comma (text : Str) :
+    Gen.BodiesText.split_on_unescaped_comma text = splitUnescComma text :=
+  Bodies.split_on_unescaped_comma_eq text
+
+example : Gen.BodiesText.split_on_unescaped_comma "a\\,b,c\\".toList = ["a\\,b".toList, "c\\".toList] := by decide
 
 end ICal.C07
